@@ -54,6 +54,10 @@ types, assume_specifications, spec functions, lemmas):
                                       back, each exactly once; those for which the closure returns true are removed, the others keep their order.  The closure is lifted
                                       into `fn <name>(verif_x: &Elem, <captures>) -> bool { let PAT = verif_x; BODY-statements }` (BODY byte-for-byte; `&` instead of the `&mut`
                                       the closure receives - a closure that mutated the element would not compile here)
+  //@liftfind <needle> | <name> | <item type> | <iterator type> | <extra locals>   (DESIGN 9.2 rule 23; //@lift| contract of <name>, //@lift.pred| of <name>_pred, //@lift.inv| loop invariant)
+                                      in the statement that starts with <needle>, `ITER_EXPR.find(|PAT| EXPR)` becomes `<name>(ITER_EXPR, <captures>)`: the loop std documents for
+                                      Iterator::find (items tested in order, the FIRST one for which the predicate is true is returned, None if there is none), the closure
+                                      lifted into `fn <name>_pred(verif_x: &Item, <captures>) -> bool { let PAT = verif_x; EXPR }`
   //@okmap? <needle>                 (DESIGN 9.2 rule 15) the statement `E.ok().map(|p| CALL);` that starts with <needle> - value discarded - is read as
                                       `if let Ok(p) = E { CALL; }` (std: Result::ok + Option::map call the closure exactly when E is Ok, with its payload);
                                       skipped (recorded) when no such statement exists, e.g. because the code already uses `if let` / `let else`
@@ -620,6 +624,69 @@ def _lift_drain_filter(body, sig, needle, name, elem, extra, lf, fname, in_impl)
     return body[:start] + loop + body[end + 1:], [pred], info
 
 
+def _lift_find(body, sig, needle, name, item, itype, extra, lf, fname, in_impl):
+    """Rule 23. Returns (new_body, [fn texts], info)."""
+    rx = re.compile(r'\s*'.join(re.escape(tok) for tok in needle.split()))
+    start = None
+    for j, d in rc.code_positions(body):
+        if rx.match(body, j) and (j == 0 or not (body[j - 1].isalnum() or body[j - 1] == '_')):
+            start = j; break
+    if start is None:
+        raise CutError('fn %s: statement with find() not found: %s' % (fname, needle))
+    m = re.compile(r'\.\s*find\s*\(\s*\|').search(body, start)
+    if not m or body[start:m.start()].count(';'):
+        raise CutError('fn %s: no `.find(|..| ..)` in the statement %s' % (fname, needle))
+    # receiver: the postfix chain before `.find`
+    i = m.start()
+    depth = 0
+    while i > 0:
+        c = body[i - 1]
+        if c in ')]': depth += 1
+        elif c in '([':
+            if depth == 0: break
+            depth -= 1
+        elif depth == 0 and not (c.isalnum() or c in '_.:&<>'):
+            break
+        i -= 1
+    lead = body[i:m.start()]
+    recv = lead.strip()
+    po = body.index('(', m.start())
+    pc = rc.match_close(body, po, '(', ')')
+    inner = body[po + 1:pc].strip()
+    bar = inner.index('|', 1)
+    pat, expr = inner[1:bar].strip(), inner[bar + 1:].strip()
+    cands = []
+    so = sig.index('(')
+    sc = rc.match_close(sig, so, '(', ')')
+    for prm in _split_top(sig[so + 1:sc]):
+        if ':' in prm:
+            nm, ty = prm.split(':', 1)
+            nm = nm.strip()
+            if nm.startswith('mut '): nm = nm[4:].strip()
+            if re.match(r'^[A-Za-z_][A-Za-z0-9_]*$', nm):
+                cands.append((nm, ty.strip()))
+    for it_ in [x for x in extra.split(',') if x.strip()]:
+        nm, ty = it_.split(':', 1)
+        cands.append((nm.strip(), ty.strip()))
+    bound = re.findall(r'[A-Za-z_][A-Za-z0-9_]*', pat)
+    caps = _free_captures(expr, cands, bound)
+    prefix = 'Self::' if in_impl else ''
+    cparams = ''.join(', %s: %s' % c for c in caps)
+    cargs = ''.join(', %s' % c[0] for c in caps)
+    pred = ('    pub fn %s_pred(verif_x: &%s%s) -> (b: bool)\n%s\n    {\n        let %s = verif_x;\n        %s\n    }'
+            % (name, item, cparams, '\n'.join(lf['pred']), pat, expr))
+    loop = ('    pub fn %s(verif_iter: %s%s) -> (r: Option<%s>)\n%s\n    {\n        for verif_x in verif_it: verif_iter\n'
+            '            invariant %s\n        {\n'
+            '            if %s%s_pred(&verif_x%s) { %s return Some(verif_x); }\n        }\n        %s\n        None\n    }'
+            % (name, itype, cparams, item, '\n'.join(lf['clauses']), ' '.join(x.strip() for x in lf['inv']), prefix, name, cargs, ' '.join(lf.get('found', [])), ' '.join(lf.get('none', []))))
+    new = '%s%s(%s%s)' % (prefix, name, recv, cargs)
+    closure_text = body[m.start():pc + 1]
+    info = {'fn': fname, 'lifted': name, 'captures': ['%s: %s' % c for c in caps], 'closure_sha256': hashlib.sha256(closure_text.encode()).hexdigest()[:16],
+            'statement_head': re.sub(r'\s+', ' ', closure_text)[:100],
+            'assumed': 'std Iterator::find(f): items tested in order, the FIRST item for which f is true is returned, None if there is none'}
+    return body[:i] + lead[:len(lead) - len(lead.lstrip())] + new + body[pc + 1:], [pred, loop], info
+
+
 def _desugar_in_params(sig):
     """`In(pat) : In<T>` parameter => `verif_in : In<T>` + `let In(pat) = verif_in;` (Rust's own desugaring)."""
     lets = []
@@ -791,6 +858,9 @@ def expand(template_path, repo='/repo'):
                     lifts[-1]['kept'].append(t[len('//@lift.kept|'):].strip())
                 elif t.startswith('//@lift.pre|'):
                     lifts[-1]['pre'].append(t[len('//@lift.pre|'):].strip())
+                elif t.startswith('//@liftfind'):
+                    nd, nm, el, ity, extra = [x.strip() for x in t[len('//@liftfind'):].split('|', 4)]
+                    lifts.append({'kind': 'find', 'needle': nd, 'name': nm, 'elem': el, 'itype': ity, 'extra': extra, 'clauses': [], 'pre': [], 'post': [], 'pred': [], 'inv': []})
                 elif t.startswith('//@liftposition'):
                     nd, nm, el, extra = [x.strip() for x in t[len('//@liftposition'):].split('|', 3)]
                     lifts.append({'kind': 'position', 'needle': nd, 'name': nm, 'elem': el, 'extra': extra, 'clauses': [], 'pre': [], 'post': [], 'pred': [], 'inv': []})
@@ -922,6 +992,13 @@ def expand(template_path, repo='/repo'):
                 body = body[:ob + 1] + '\n' + '\n'.join(loopbodies[ordinal]) + body[ob + 1:]
             body = _insert_loop_invariants(body, loops, name, loopvars)
             for lf in lifts:
+                if lf.get('kind') == 'find':
+                    body, texts, linfo = _lift_find(body, sig, lf['needle'], lf['name'], lf['elem'], lf['itype'], lf['extra'], lf, name, anchor != '-')
+                    lifted_out += texts
+                    linfo['clauses'] = [c.strip() for c in lf['clauses'] + lf['pred']]
+                    linfo['file'] = f
+                    side.setdefault('lifted_closures', []).append(linfo)
+                    continue
                 if lf.get('kind') == 'drainfilter':
                     body, texts, linfo = _lift_drain_filter(body, sig, lf['needle'], lf['name'], lf['elem'], lf['extra'], lf, name, anchor != '-')
                     lifted_out += texts
